@@ -6,11 +6,12 @@
 #include <vector>
 extern "C" {
 #include "a/utf.h"
+#include "a/str.h"
 }
 
-enum { L_CP, L_LEN2, L_LEN3, L_LEN4, L_LEN5, L_LEN6, L_BOUNDARY, L_BYTES, L_MALFORMED_REJECTED, L_MULTI_ACCEPTED, L_STRAY_CONT, L_FE_FF, L_TRUNCATED, L_LENGTH, L_LENGTH_STOPS_EARLY, L_WELLFORMED, L_TEXT, L_TEXT_NUL };
+enum { L_CP, L_LEN2, L_LEN3, L_LEN4, L_LEN5, L_LEN6, L_BOUNDARY, L_BYTES, L_MALFORMED_REJECTED, L_MULTI_ACCEPTED, L_STRAY_CONT, L_FE_FF, L_TRUNCATED, L_LENGTH, L_LENGTH_STOPS_EARLY, L_WELLFORMED, L_TEXT, L_TEXT_NUL, L_STR_OBJECT };
 static char const *const labels[] = {"code_point_round_trip", "len2", "len3", "len4", "len5", "len6", "length_boundary_code_point", "arbitrary_bytes", "malformed_rejected",
-                                     "multibyte_accepted", "stray_continuation_lead", "lead_FE_or_FF", "truncated_sequence", "length_counter", "length_counter_stops_before_end", "wellformed_string", "mostly_ascii_text_up_to_256_code_points", "text_with_embedded_nul", nullptr};
+                                     "multibyte_accepted", "stray_continuation_lead", "lead_FE_or_FF", "truncated_sequence", "length_counter", "length_counter_stops_before_end", "wellformed_string", "mostly_ascii_text_up_to_256_code_points", "text_with_embedded_nul", "string_object_cut_inside_a_character", nullptr};
 static char const *const metrics[] = {nullptr};
 static uint8_t const dict[] = {0xC0, 0xC2, 0xDF, 0xE0, 0xEF, 0xF0, 0xF7, 0xF8, 0xFB, 0xFC, 0xFD, 0xFE, 0xFF, 0x80, 0xBF, 0x00};
 static vp_info const info = {"C18", "utf8", "", labels, metrics, 64, dict, sizeof(dict)};
@@ -88,7 +89,7 @@ static uint32_t gen_cp(Tape &t, Ctx &cx)
 static void run_case(Tape &t, Ctx &cx)
 {
     ++cx.rep->subcases;
-    uint8_t mode = t.u8() % 5;
+    uint8_t mode = t.u8() % 6;
     std::vector<uint8_t *> blocks;
     struct Free { std::vector<uint8_t *> &b; ~Free() { for (auto p : b) { free(p); } } } fr{blocks};
     auto place = [&](unsigned n) {
@@ -120,6 +121,39 @@ static void run_case(Tape &t, Ctx &cx)
         VP_CHECK(cx, stop == pos, "length:stop", "a_utf_length stops after %zu bytes, successive decodes consume %zu", (size_t)stop, pos);
         return pos;
     };
+    if (mode == 5)
+    {
+        // the counter of the string object (a_utf_len): code points appended with a_utf_catc, then the string is cut back by a few
+        // bytes with the non-terminating interface, so that it may end inside a character while the rest of that character
+        // is still in the block behind the length; the count has to be that of the first a_str_len bytes
+        a_str st;
+        a_str_ctor(&st);
+        struct D { a_str *s; ~D() { a_str_dtor(s); } } dd{&st};
+        unsigned k = 1 + t.u8() % 6;
+        for (unsigned i = 0; i < k; ++i)
+        {
+            uint32_t cp = t.u8() % 3 ? gen_cp(t, cx) : 0x20u + t.u8() % 95u;
+            cx.hash.add(cp);
+            if (a_utf_catc(&st, cp) != A_SUCCESS) { return; }
+        }
+        unsigned cutn = t.u8() % 7;
+        for (unsigned i = 0; i < cutn && a_str_len(&st); ++i)
+        {
+            if (t.coin()) { (void)a_str_getc_(&st); }
+            else { a_str_setn_(&st, a_str_len(&st) - 1); }
+        }
+        size_t len = a_str_len(&st);
+        cx.hash.add(cutn | (len << 8));
+        cx.label(L_STR_OBJECT);
+        cx.rep->nontrivial = true;
+        cx.log("string object: %u code points, cut back by %u bytes to %zu\n", k, cutn, len);
+        uint8_t *p = place(unsigned(len));
+        memcpy(p, a_str_ptr(&st), len);
+        size_t pos = check_length(p, len);
+        a_size s1 = 99, c1 = a_utf_len(&st, &s1), c2 = a_utf_length(p, len, nullptr);
+        VP_CHECK(cx, c1 == c2 && s1 == pos && a_utf_len(&st, nullptr) == c1, "length:string_object", "a_utf_len on a string of %zu bytes counts %zu code points / %zu bytes, a_utf_length on a copy of exactly those bytes %zu / %zu", len, (size_t)c1, (size_t)s1, (size_t)c2, pos);
+        return;
+    }
     if (mode == 4)
     {
         // text: up to 256 code points, mostly ASCII, some multi-byte, embedded NULs before the stated end (an exhausted
